@@ -17,6 +17,10 @@ ROWS = {
    technique='property-based testing: generated messages/RelayStates/destinations, round trip through independent stdlib readers (urllib.parse, html.parser, ElementTree, zlib)',
    text='Generated messages and RelayStates are packaged with Redirect, POST, SOAP/PAOS and artifact encoders and read back with independent parsers and with the library decoders; byte identity (Redirect/POST), element identity (SOAP), exact parameter/field sets.',
    note='Destinations are URL-safe by construction; HTML values compared modulo CR/CRLF->LF; artifact endpoint index limited to 0..9.'),
+ 'C15': dict(level='exploration', design='3/C15',
+   technique='property-based testing: generated inputs with single-parameter mutations, stateful op histories + bounded exhaustive sequences, Hypothesis-drawn thread schedules under a settrace baton scheduler; independent RSA verification with cryptography',
+   text='Signed redirect URLs are verified independently over the transmitted octets under every candidate certificate; mutated queries must not verify; op histories and line-level thread interleavings of sign/verify by entities with different keys must keep every signature under its requester\'s key.',
+   note='Line-granular interleavings of 2-3 threads with bounded switch points; cryptography package as verification oracle.'),
 }
 NOT_YET = {}
 def main():
